@@ -170,6 +170,12 @@ impl Local {
             self.nontrivial += 1;
         }
     }
+    /// The address residue (modulo 8) at which this case hands its input strings to the subject when the space is
+    /// not crossed with all residues: a function of the case index only (`engine::place`), so a replay uses the same.
+    pub fn residue(&self) -> usize {
+        crate::engine::place::split(self.cur_idx, false).1
+    }
+
     pub fn sample(&mut self, desc: impl FnOnce() -> String) {
         if self.sample_wanted || self.replay {
             let mut d = desc();
